@@ -202,10 +202,12 @@ def parseGo : PState → List Seg → List Char → List Seg × Option Raise
        | d' + 1 => parseGo (.key d' (c :: acc)) out cs)
     else if c = '(' then parseGo (.key (d + 1) (c :: acc)) out cs
     else parseGo (.key d (c :: acc)) out cs
-  | .conv _, out, [] => (out.reverse, some .valueError)            -- "incomplete format"
+  -- CPython fetches `mapping[key]` as soon as the `)` is read, before it looks at the conversion:
+  -- an undefined key is a KeyError even when the conversion is missing or not modelled
+  | .conv k, out, [] => ((Seg.ph k :: out).reverse, some .valueError)   -- "incomplete format"
   | .conv k, out, c :: cs =>
     if c = 's' then parseGo .text (.ph k :: out) cs
-    else (out.reverse, some .unsupported)
+    else ((Seg.ph k :: out).reverse, some .unsupported)
 
 def scanFmt (s : Str) : List Seg × Option Raise := parseGo .text [] s
 
